@@ -60,7 +60,7 @@ func validateInvoice(inv *bill.Invoice) error {
 
 func validateTax(value any) error {
 	obj, ok := value.(*bill.Tax)
-	if !ok {
+	if !ok || obj == nil {
 		return nil
 	}
 	return validation.ValidateStruct(obj,
@@ -104,7 +104,7 @@ func validateSupplier(value interface{}) error {
 
 func validateCustomer(value interface{}) error {
 	customer, ok := value.(*org.Party)
-	if !ok {
+	if !ok || customer == nil {
 		return nil
 	}
 
@@ -218,7 +218,7 @@ func isItalianParty(party *org.Party) bool {
 
 func validateAddress(value interface{}) error {
 	v, ok := value.(*org.Address)
-	if !ok {
+	if !ok || v == nil {
 		return nil
 	}
 	// Post code and street in addition to the locality are required in Italian invoices.
